@@ -103,7 +103,7 @@ def c10_uuid(F, R):
 def c10_dup(F, R):
     """the label -> function map is many-to-one: iterating it and emitting per entry must de-duplicate by function identity"""
     reach, _ = reachable_bodies(F)
-    fm = [q for q in F.fns if q.endswith("cfg::graph::Cfg::functions")]
+    fm = [q for q in F.fns if q.endswith("::Cfg::functions")]
     if not fm:
         raise Anchor("Cfg::functions not found")
     from .p_parse import parent_map
